@@ -389,7 +389,7 @@ def wDispatch (P : Prims) : Desc → St → CM St
         match P.factorValue s1 >>= factorCount with
         | .error e => .error e
         | .ok n => iterN n (walkList P ms) s1
-    | _ => .error .other
+    | _ => .error .unknownDescr
   | .op id, s => operatorDescriptor P id s
   | .seq _ ms, s => walkList P ms s
   | .undefElem _, _ => .error .unknownDescr
@@ -432,7 +432,7 @@ def cDispatch (chk : Nat) : Desc → CRegs → CM COut
       | .ok (body, c1) =>
         if decide (chk ≠ 0) && !(scopeOk (decide (chk = 2)) (cElement fe c).2 body c1 (compileList chk ms c1)) then .error .other
         else .ok ((cElement fe c).1 ++ [.loop .factor body], c1)
-    | _ => .error .other
+    | _ => .error .unknownDescr
   | .op id, c =>
     if decide (chk ≠ 0) && isMarkerOp id && decide (c.qa ≠ .na) then .error .other
     else cOperator id c
